@@ -114,6 +114,30 @@ CHECKS = {
          'hostile bodies + random printable-ASCII bodies x both quote kinds x 6 value positions x minified/default output, 1-3 interpolations '
          'with every variable also used plainly before and after, shadowing scenarios, selector interpolation forms.'),
    note=BASE_NOTE + ' Backslash and @ inside bodies are outside the property (the lexer has no escape handling: recorded in DESIGN).'),
+ 'C11': dict(category='proof',
+   technique='Lean 4: code-shaped model of the formatter proved equal to a layout description (tokens + optional whitespace) by mutual induction; differential correspondence under all 72 option vectors and the CLI flags',
+   text=('C11_layout: for every sheet (rules, selector lists, combinators, value lists, !important, @media/@keyframes nesting to any depth, '
+         'statements) satisfying a decidable cleanliness predicate on the content of at-rule blocks, the model of Formatter.format / Block.fmt '
+         '(string-level re-indentation included) / Property.fmt / Identifier.fmt equals strip(realise(fills o)(layout sheet)), for EVERY '
+         'option vector; each cleanliness condition is shown necessary by a kernel-checked counterexample. C11_ws_only: every optional item '
+         'renders as whitespace only; C11_erase*/C11_format_erase: two option vectors give the same token sequence and differ only in '
+         'whitespace-only gaps (tokens, strings and descendant spaces are emitted verbatim); C11_min/C11_xmin: minified modes render every '
+         'optional item empty (eb = newline unless xminify); C11_default*: own line per selector and declaration, indentation = level x unit; '
+         'C11_plumb: the fill table. Tie: bytes of lesscpy.compile under all 72 vectors and of python -m lesscpy with the corresponding '
+         'flags = Lessm.Print.format on generated CSS trees; an independent oracle checks erase-equality and line structure on the real outputs.'),
+   note=BASE_NOTE + ' The space the lexer drops after a string token (CSS token sequence unchanged) is applied to the tree before it is given to the formatter model.'),
+ 'C12': dict(category='proof',
+   technique='Lean 4: model of the token filter with theorems instantiated on the regenerated significant-whitespace set; metamorphic layout runs on the real compiler and filter-vs-filter correspondence on raw token streams',
+   text=('On Lessm.Gen.significantWs regenerated from lexer.py on every run (C12_table): a run of whitespace tokens equals one (C12_run_n); a gap '
+         'matters only through whether it contains any blank/line-break run (C12_gap_tokens, C12_gap_program: any non-empty whitespace run may be '
+         'replaced by any other, comments and their bodies are irrelevant); after ; { } , : and at the start ANY gap is irrelevant '
+         '(C12_boundary, C12_comment_at_boundary); the injected semicolon is exactly the written one, for every token stream (C12_semi, '
+         'C12_semi_block, necessity: C12_semi_not_after); line numbers count the line feeds of gaps, comments and multi-line lexemes '
+         '(C12_lines); the filter is idempotent. Tie: model filter = LessLexer.token on the raw token streams of all sources and variants; '
+         'oracle: every program of the generators of C02 C03 C05 C07 C19 and every file of test/less (lexer-guided mutation) under k layouts '
+         '(whitespace runs replaced incl. LF/CRLF/tabs, 25 hostile comment bodies at statement boundaries, last semicolons toggled) compiles to '
+         'byte-identical CSS.'),
+   note=BASE_NOTE + ' The regular expressions that cut text into lexemes and comments are validated by the hostile bodies, not proved.'),
 }
 NOT_APPLICABLE = {p: 'check under construction in this round (see DESIGN.md section 10 build order); not claimed yet' for p in
-  ['C01','C10','C11','C12','C13','C14','C15','C16','C20']}
+  ['C01','C10','C13','C14','C15','C16','C20']}
